@@ -494,7 +494,7 @@ def populate(ctx, sk):
     ev.splice('evaluate', ret='res', requires=['[C07:evaluate-protocol] old(self).sp_wf() && !old(self).sp_phase().waiting()'],
               ensures=E_POST + [ERRST, '[C07:evaluate-complete-idempotent] old(self).sp_phase() is Complete ==> res == Ok::<EvaluationResult<R>, Error>(EvaluationResult::Complete)',
                                 '[C07:error-state-sticky] res matches Err(e) ==> final(self).sp_phase() == Phase::Failed(e) || (old(self).sp_phase() is Start && final(self).sp_same_phase(old(self)))'],
-              after=[('self.push(Value::Generic(value))?;', 'assert(self.stack@ == old(self).stack@.push(Value::Generic(value))); // [C07:initial-value-pushed]')], canary=True)
+              before=[('match self.evaluate_internal() {', 'assert(match old(self).state { EvaluationState::Start(Some(v)) => self.stack@ == old(self).stack@.push(Value::Generic(v)), _ => self.stack@ == old(self).stack@ }); // [C07:initial-value-pushed]')], canary=True)
     for name, wait, anchor, ghost_before, ghost_after in [
         ('resume_with_memory', 'old(self).sp_phase() is WaitMemory', 'self.push(value)?;', None, 'assert(self.stack@ == old(self).stack@.push(value)); // [C07:resume-pushes-answer]'),
         ('resume_with_register', 'old(self).sp_phase() is WaitRegister', 'self.push(value)?;', 'let ghost answer = value;',
@@ -502,7 +502,7 @@ def populate(ctx, sk):
          '(value_add(answer, o, self.addr_mask) matches Ok(v) && self.stack@ == old(self).stack@.push(v)))); // [C07:resume-register-adds-offset]'),
         ('resume_with_wasm_value', 'old(self).sp_phase() is WaitWasmValue', 'self.push(value)?;', None, 'assert(self.stack@ == old(self).stack@.push(value)); // [C07:resume-pushes-answer]'),
         ('resume_with_frame_base', 'old(self).sp_phase() is WaitFrameBase', 'self.push(Value::Generic(frame_base.wrapping_add(offset as u64)))?;', None,
-         'assert(self.stack@.len() == old(self).stack@.len() + 1 && self.stack@.drop_last() == old(self).stack@ && (self.stack@.last() matches Value::Generic(x) && ({ let t = frame_base as int + offset as int; x as int == t || x as int == t - 0x1_0000_0000_0000_0000 || x as int == t + 0x1_0000_0000_0000_0000 }))); // [C07:resume-frame-base-adds-offset]'),
+         'assert(self.stack@.len() == old(self).stack@.len() + 1 && self.stack@.drop_last() == old(self).stack@ && (old(self).state matches EvaluationState::Waiting(EvaluationWaiting::FrameBase { offset: off }) && (self.stack@.last() matches Value::Generic(x) && ({ let t = frame_base as int + off as int; x as int == t || x as int == t - 0x1_0000_0000_0000_0000 || x as int == t + 0x1_0000_0000_0000_0000 })))); // [C07:resume-frame-base-adds-offset]'),
         ('resume_with_tls', 'old(self).sp_phase() is WaitTls', 'self.push(Value::Generic(value))?;', None, GEN_PUSH % 'value'),
         ('resume_with_call_frame_cfa', 'old(self).sp_phase() is WaitCfa', 'self.push(Value::Generic(cfa))?;', None, GEN_PUSH % 'cfa'),
         ('resume_with_entry_value', 'old(self).sp_phase() is WaitEntryValue', 'self.push(entry_value)?;', None, 'assert(self.stack@ == old(self).stack@.push(entry_value)); // [C07:resume-pushes-answer]'),
@@ -513,14 +513,16 @@ def populate(ctx, sk):
         bef = [('match self.state {', ghost_before)] if ghost_before else []
         if name == 'resume_with_frame_base':
             bef.append((anchor, 'proof { assert(offset >= 0 ==> (offset as u64) as int == offset as int) by (bit_vector); assert(offset < 0 ==> (offset as u64) as int == offset as int + 0x1_0000_0000_0000_0000) by (bit_vector); }'))
-        ev.splice(name, ret='res', requires=[PROTO % wait], ensures=E_POST + [ERRST], before=bef, after=[(anchor, ghost_after)], canary=True)
+        # the answer is checked where the machine is restarted, so that anything pushed or popped in between is seen
+        bef.append(('self.evaluate_internal()', ghost_after))
+        ev.splice(name, ret='res', requires=[PROTO % wait], ensures=E_POST + [ERRST], before=bef, canary=True)
     ev.splice('resume_with_at_location', ret='res', requires=[PROTO % 'old(self).sp_phase() is WaitAtLocation'], ensures=E_POST + [ERRST],
-              before=[('match self.state {', 'let ghost callee = bytes.rv();')],
-              after=[('.map_err(|_verif_unused| -> (e: Error) ensures e == Error::StackFull { Error::StackFull })?;',
-                      'assert(self.pc.rv() == callee && self.bytecode.rv() == callee && self.expression_stack@.len() == old(self).expression_stack@.len() + 1 && self.expression_stack@.last().0 == old(self).pc && self.expression_stack@.last().1 == old(self).bytecode && self.stack@ == old(self).stack@); // [C07:resume-call-enters-callee]')],
+              before=[('match self.state {', 'let ghost callee = bytes.rv();'), ('self.evaluate_internal()',
+                      'assert(self.stack@ == old(self).stack@ && (callee.len == 0 ==> self.pc == old(self).pc && self.bytecode == old(self).bytecode && self.expression_stack@ == old(self).expression_stack@) && '
+                      '(callee.len > 0 ==> self.pc.rv() == callee && self.bytecode.rv() == callee && self.expression_stack@.len() == old(self).expression_stack@.len() + 1 && self.expression_stack@.last().0 == old(self).pc && self.expression_stack@.last().1 == old(self).bytecode && self.expression_stack@.drop_last() == old(self).expression_stack@)); // [C07:resume-call-enters-callee]')],
               canary=True)
     ev.splice('resume_with_base_type', ret='res', requires=[PROTO % '(old(self).sp_phase() is WaitTypedLiteral || old(self).sp_phase() is WaitConvert || old(self).sp_phase() is WaitReinterpret)'], ensures=E_POST + [ERRST],
-              after=[('self.push(value)?;', 'assert(match old(self).state { EvaluationState::Waiting(EvaluationWaiting::TypedLiteral { value: lit }) => value_parse(base_type, lit.rv()) == Ok::<Value, Error>(value) && self.stack@ == old(self).stack@.push(value), '
+              before=[('self.evaluate_internal()', 'assert(match old(self).state { EvaluationState::Waiting(EvaluationWaiting::TypedLiteral { value: lit }) => value_parse(base_type, lit.rv()) == Ok::<Value, Error>(value) && self.stack@ == old(self).stack@.push(value), '
                       'EvaluationState::Waiting(EvaluationWaiting::Convert) => old(self).stack@.len() >= 1 && value_convert(old(self).stack@.last(), base_type, self.addr_mask) == Ok::<Value, Error>(value) && self.stack@ =~= old(self).stack@.drop_last().push(value), '
                       'EvaluationState::Waiting(EvaluationWaiting::Reinterpret) => old(self).stack@.len() >= 1 && value_reinterpret(old(self).stack@.last(), base_type, self.addr_mask) == Ok::<Value, Error>(value) && self.stack@ =~= old(self).stack@.drop_last().push(value), '
                       '_ => false }); // [C07:resume-base-type]')], canary=True)
